@@ -469,7 +469,9 @@ def avoid_dead_links(root, machine, wrap_around=False):
     # all disconnected subtrees being connected, the result is a fully
     # connected tree.
     for parent, child in broken_links:
-        child_chips = set(c.chip for c in lookup[child])
+        # (RoutingTree.traverse is iterative: the disconnected subtree may be
+        # deeper than the interpreter's recursion limit.)
+        child_chips = set(chip for _, chip, _ in lookup[child].traverse())
 
         # Try to reconnect broken links to any other part of the tree
         # (excluding this broken subtree itself since that would create a
